@@ -79,7 +79,7 @@ CHECKS = {
                 "framework results are compared with the deprecated Registry.ByName(...).Execute path too. enumerated single-feature scope matrix ({no EKU, each of 8 EKUs} x {no policy, each of 18 scope OIDs, anyPolicy, unrelated} x 9 e-mail-SAN variants (absent, rfc822Name, SmtpUTF8Mailbox well-formed / Latin-1 / OCTET STRING / trailing element / empty wrapper / empty string, empty rfc822Name) on the 3 "
                 "corpus certificates that are home to most TLS/SMIME/CS lints; the same scope variants are objects of the mock leg, where run-time lints of every source meet them) + a soak history + corpus + rapid objects with openers, filters and configurations. Oracle: framework result == "
                 "reference lifecycle (scope model, fresh instance, MaybeConfigure, CheckApplies, integer window, Execute) for every lint, status and details. "
-                "Non-trivial = object on which >=1 lint's lifecycle stage differs from the untransformed base; distinct by hash(DER). Concurrent scope (race-detector build): certificates in / out of scope of each document (key purposes, policy identifiers, a SAN mailbox), short ones next to ones with hundreds to thousands of filler policy identifiers, linted by eight goroutines at once - every digest equals the one computed alone.",
+                "Non-trivial = object on which >=1 lint's lifecycle stage differs from the untransformed base; distinct by hash(DER). Concurrent scope (race-detector build): certificates in / out of scope of each document (key purposes, policy identifiers, a SAN mailbox), short ones next to ones with hundreds to thousands of filler policy identifiers, linted by eight goroutines at once - every digest equals the one computed alone. Configured, then filtered (enumerated): a configuration (an alternative option value, a section that cannot be applied) installed on the global registry before filters of every shape (sources only, names only, a pattern, chains) - the filtered registry must work with it; in the rapid legs a drawn configuration goes to the parent or to the filter result by a coin. Recycled certificate value: all matrix certificates written one after the other into ONE certificate value and linted through it with nothing else in between - same verdicts as on values of their own.",
         "assumptions": COMMON_ASSUME + ["mock-lint call logs (constructor/Configure/CheckApplies/Execute order) are covered by the mockreg leg"],
     },
     "C06": {
@@ -88,7 +88,7 @@ CHECKS = {
                               {"pkg": "racecheck", "run": "^TestConcurrentCorpus$", "shards": 4 if tier == "quick" else 16, "race": True, "replay_pkg": False}],
         "rule": "every lint run contributes a (lint, status) tally: corpus, boundary objects of every dated lint, " + HOME_SWEEP + " (K=2), rapid edits directed at the home objects of each lint, generated objects with openers, the calendar CRL enumeration x the CRL lint's option, rapid objects under well-typed configurations; S/MIME subjects whose mailboxes reappear in the SAN verbatim, in their other IDNA spelling, as SmtpUTF8Mailbox (well-formed or not) or not at all. "
                 "Oracle: status in {pass, NA, NE, fatal} or the one severity the name prefix allows; every registered name has exactly one prefix (enumerated). "
-                "Non-trivial = distinct (lint, status above pass) pair observed. Sections that cannot be applied (enumerated: scalar, string, array, array of tables, date, wrong field type, table for a scalar x every configurable lint x objects it runs on; and one rapid case in five of the configured leg): what the framework answers in the lint's place must also fit the lint's prefix.",
+                "Non-trivial = distinct (lint, status above pass) pair observed. Sections that cannot be applied (enumerated: scalar, string, array, array of tables, date, wrong field type, table for a scalar x every configurable lint x objects it runs on; and one rapid case in five of the configured leg): what the framework answers in the lint's place must also fit the lint's prefix. Concurrent corpus (race-detector build): the corpus objects on which some lint reports are linted by eight goroutines at once in different rotations - every result obeys the prefix rule and every digest equals the sequential one.",
         "assumptions": COMMON_ASSUME + ["only executed return paths are observed"],
     },
     "C12": {
@@ -97,7 +97,7 @@ CHECKS = {
         "rule": "enumerated: every Register* call found by a go/parser census of v3/lints/*/*.go (non-test) and every lint in the "
                 "default-build registry, each checked once (census==registry, lookups agree, metadata well-formed); generated: "
                 "after each of six run-time registrations (every kind, sources shared across kinds) the registry and every one- and two-lint view without certificate lints must agree with themselves (listing, per-kind sources, per-kind Names() sorted and duplicate-free, lookups); rapid near-miss / random names and sources looked up in the global and in generated filtered registries. "
-                "Non-trivial = one registered lint (census entry or metadata record) or a lookup that must miss; distinct by name.",
+                "Non-trivial = one registered lint (census entry or metadata record) or a lookup that must miss; distinct by name. A lint's source must also be one the library's own recognisers know: LintSource.FromString gives it back and it survives JSON decoding.",
         "assumptions": ["lint registrations are syntactic lint.Register* calls with a literal Name (the census reports any that are not)",
                         "the harness test binary imports github.com/zmap/zlint/v3 exactly as a default build does"],
     },
@@ -107,7 +107,7 @@ CHECKS = {
         "rule": "enumerated: every lint alone (Filter IncludeNames=[l]) on K of its home objects (2 quick / all thorough); rapid: generated objects x generated valid FilterOptions "
                 "(singletons, subsets, sources, regexps, chains of two filters), on fresh parses and on one shared parsed object in both orders; inherited configurations (well- and ill-typed), and an earlier equal Filter whose result was reconfigured; lint-order oracle: corpus certificates, structured certificates and the home-sweep mutants (half of them in quick, all in thorough) are linted in the registry's order and in reverse order on fresh parses - every status must agree. Oracle: selected lints' status and "
                 "details equal the full run's, keys == selected lints of the kind, filtered flags imply full flags. Non-trivial = proper non-empty selection with >=1 finding among "
-                "the selected lints; distinct by hash(DER, filters). Every sweep mutant is linted once in the registry's order; the reverse-order run follows whenever that run left the parsed object different from a freshly parsed twin, and for one mutant in four besides (all in thorough). The corpus with lengthened lists (slices with spare capacity) goes through the order oracle too.",
+                "the selected lints; distinct by hash(DER, filters). Every sweep mutant is linted once in the registry's order; the reverse-order run follows whenever that run left the parsed object different from a freshly parsed twin, and for one mutant in four besides (all in thorough). The corpus with lengthened lists (slices with spare capacity) goes through the order oracle too. Revocation lists and OCSP responses go through the lint-order oracle too (status and details; corpus, synthetic rich ones, reason-code orders, 17 ... 10000 entries), each with every lint of its kind alone vs the full run. The CLI -config matrix runs as a leg: a narrowed run under -config gives each selected lint what the library gives it.",
         "assumptions": COMMON_ASSUME,
     },
     "C08": {
@@ -154,7 +154,7 @@ CHECKS = {
         "legs": legs_with_mock("^TestC09$", 14, 16),
         "rule": "rapid: generated certificates (corpus, 0-3 DER edits, openers) whose issuer differs from the subject x a replacement signature BIT STRING of the same length "
                 "(random, all-zero, all-one, one bit flipped, another corpus certificate's signature of equal length, a fresh well-formed ECDSA-Sig-Value, reversed, BIT STRINGs with 1-7 unused bits / empty / odd length, enumerated: every (inner, outer) pair of the corpus' AlgorithmIdentifier encodings x 3 signatures; mock leg: recovered panics and configuration errors must not depend on the signature bits either; a slice of the certificate's own tbsCertificate, one of its own extensions re-encoded (as is / explicit critical FALSE / TRUE / whole list), its own names, validity, serial or key). Oracle: "
-                "identical status and details for every lint, SelfSigned false on both. Non-trivial = signature bits actually differ and >=1 lint body executed; distinct by (DER, DER').",
+                "identical status and details for every lint, SelfSigned false on both. Non-trivial = signature bits actually differ and >=1 lint body executed; distinct by (DER, DER'). Look-alike issuers (enumerated): every seventh corpus certificate with its issuer replaced by a look-alike of its subject (string types swapped, all attributes in one multi-valued RDN, last two RDNs merged, upper case, trailing blank, RDNs reversed - never the same bytes) and signed so that the signature verifies under the certificate's own key, against the same TBS with the signature zeroed, one bit flipped, reversed.",
         "assumptions": COMMON_ASSUME + ["a variant the parser rejects is counted, not judged"],
     },
     "C16": {
@@ -166,7 +166,7 @@ CHECKS = {
                 "(a quarter of the base/threshold/exponent grid per seed), genuinely self-signed roots built from 10 committed keys of 1023..4096 bits under the base's validity and eight periods on every side of the 2011 / 2014 dates; rapid: moduli near thresholds, "
                 "uniform 2..4200 bits, multiples of 8 +-1, even, primes around 752 x prime, products of two primes; exponents incl. 2^63-1; Fermat: products of primes whose distance is "
                 "aimed at 0..4000 rounds (also 1536- / 2048-bit primes: moduli above 2048 bits), moduli made of all-ones / near-all-ones / zero machine words, applicability independent of the key value, Rounds configured at need-1..need+2 - a budget of them also through the real CLI with -config and generated selection flags, plus the enumerated CLI -config matrix for the Fermat lint. Keys are written into the SPKI of home certificates of the 14 lints. Oracle: math/big predicates, applied "
-                "where the reference lifecycle says the lint executed. Non-trivial = (lint, bit length within 1 of a threshold) or (lint, key with the finding) or a Fermat (N, Rounds) case. Aligned differences (enumerated): 256- and 512-bit prime pairs whose half-difference is m*2^s, m*2^s - 1 or m*2^s + 1 for s in {31,32,33,63,64,65,96,128} (low machine words all zero / all ones / one bit), default rounds and Rounds = 1. Concurrent leg (race-detector build): chosen keys (small factors either side of 752, short modulus, odd exponents) judged by eight goroutines - every digest equals the one computed alone.",
+                "where the reference lifecycle says the lint executed. Non-trivial = (lint, bit length within 1 of a threshold) or (lint, key with the finding) or a Fermat (N, Rounds) case. Aligned differences (enumerated): 256- and 512-bit prime pairs whose half-difference is m*2^s, m*2^s - 1 or m*2^s + 1 for s in {31,32,33,63,64,65,96,128} (low machine words all zero / all ones / one bit), default rounds and Rounds = 1. Concurrent leg (race-detector build): chosen keys (small factors either side of 752, short modulus, odd exponents) judged by eight goroutines - every digest equals the one computed alone. The concurrent key leg makes the process's first key-quality calls (no lint has run before the eight goroutines start); the sequential reference follows.",
         "assumptions": COMMON_ASSUME + ["Fermat Rounds <= 2000", "perfect squares are excluded from the Fermat must-report direction"],
     },
     "C17": {
@@ -175,7 +175,7 @@ CHECKS = {
                 "subscriber certificate that is home to most name lints - DNS pairs with the common name removed, equal to the first and equal to the second entry; every corpus certificate x 5 fixed permutations of its extension list. "
                 "rapid: certificates whose SAN is rebuilt from 2-8 GeneralNames of every arm (compliant, non-compliant, unparseable; dictionary + corpus donors) x a permutation "
                 "(adjacent transposition, reversal, rotation, Fisher-Yates) x common name (as is, removed, copy / upper-case / lower-case of an entry, unrelated); e-mail-like entries incl. malformed SmtpUTF8Mailbox otherNames x everything on an S/MIME certificate; extension crossover (every donor extension first vs last); generated certificates without duplicate extension OIDs x a permutation of the extension list. Self-signed "
-                "bases are re-signed on both sides. Oracle: identical status vector. Non-trivial = non-identity permutation of a pair with >=1 finding; distinct by (DER, DER').",
+                "bases are re-signed on both sides. Oracle: identical status vector. Non-trivial = non-identity permutation of a pair with >=1 finding; distinct by (DER, DER'). Decoy extensions (enumerated): next to each extension of ~70 carrier certificates an extension whose identifier is a relative of it (first arc changed, last arc +-1, an arc shifted by 2^8 / 2^24, child, parent) with an empty value, once first and once last.",
         "assumptions": COMMON_ASSUME + ["pairs that the parser accepts in one order only are counted, not judged"],
     },
     "C18": {
@@ -220,7 +220,7 @@ CHECKS = {
                 "and up to 4 registries, re-using parsed objects, against a memo of the first verdict; (3) read-only: reflect walk over every exported field of the linted object vs an "
                 "unlinted twin; (4) a bundle of corpus + generated objects linted in a fresh process (oneshot, CGO off) - digests must equal the in-process ones under rapid-generated "
                 "environments (TZ, LANG, HOME, TMPDIR, unrelated variables, cwd, empty env) - and under strace -f: no file, network, process or descriptor I/O system call may start "
-                "inside the marked lint window. Non-trivial = object with >=1 finding carrying details (distinct by case hash), a history of >=3 steps over >=2 registries, or an environment. Predecessor sweep (enumerated): for every lint, every corpus object on which it reports (and some on which it passes; up to 5 / 12) is linted immediately before every object of the kind (corpus + synthetic rich CRLs / OCSP responses) - the victim's status and details must be what they are after any other predecessor (~1.8 M pairs). Corpus with lengthened lists (SAN arms, policies, key purposes, organizational units padded to 3, 5, 6, 7 ... entries with capital letters, so parser-built slices have spare capacity): read-only and repetition. Corpus in another order: each shard lints the whole corpus (full registry) in a seed-derived permutation - every object's verdicts equal those of the file-name-order pass.",
+                "inside the marked lint window. Non-trivial = object with >=1 finding carrying details (distinct by case hash), a history of >=3 steps over >=2 registries, or an environment. Predecessor sweep (enumerated): for every lint, every corpus object on which it reports (and some on which it passes; up to 5 / 12) is linted immediately before every object of the kind (corpus + synthetic rich CRLs / OCSP responses) - the victim's status and details must be what they are after any other predecessor (~1.8 M pairs). Corpus with lengthened lists (SAN arms, policies, key purposes, organizational units padded to 3, 5, 6, 7 ... entries with capital letters, so parser-built slices have spare capacity): read-only and repetition. Corpus in another order: each shard lints the whole corpus (full registry) in a seed-derived permutation - every object's verdicts equal those of the file-name-order pass. Dated predecessors: every lint's home objects re-dated to one second before each of the ~60 date literals harvested (go/parser) from zlint's util / lint / lints sources serve as predecessors of its home objects (~0.5 M pairs). Revocation lists with entries in every serial order carrying different offending reason codes, and of 17 ... 10000 entries (descending / scattered serials, one duplicate), join the corpus for repetition and read-only.",
         "assumptions": COMMON_ASSUME + ["reads/writes on the Go runtime's own eventfd/pipe wake-up descriptors are not I/O of the linted code",
                                          "os.Getenv is not a system call: it is attacked through environment perturbation only",
                                          "I/O freedom is observed on executed paths only"],
@@ -236,7 +236,7 @@ CHECKS = {
                 "WriteJSON, GetConfiguration, DefaultConfiguration}; shared registries = global + 1-3 generated filtered ones; 6-24 objects per program (corpus walked round-robin so every "
                 "lint body the corpus reaches runs concurrently, generated certificates, CRLs, OCSP); start barrier, generated Gosched points; each program executed 3 times; shards run "
                 "under GOMAXPROCS 1/2/4/16. Monitors: Go race detector (any report), panics, 180 s deadlock watchdog (120 s in the hammer); oracle: every concurrent lint digest equals the memoised "
-                "sequential digest. Non-trivial = program with >=2 mostly-linting goroutines and >=1 other goroutine; distinct by operation lists. Cold start also covers reads: while eight goroutines lint through the untouched global registry three more make every read call (JSON listing, names, sources, per-kind lists, lookups by source and name, a filter, example configuration) for the first time, each shard starting at another call; answers must equal the same calls made alone. Further legs (fresh processes, race detector): ~500 calls of pure helper functions (reserved addresses and networks, TLD table, FQDN / IDNA / country / onion helpers, trial division) made first concurrently then alone, and hammered; JSON encoders (result sets, results, statuses, sources, listing) from eight goroutines against the bytes produced alone; key-quality verdicts on chosen RSA keys from eight goroutines.",
+                "sequential digest. Non-trivial = program with >=2 mostly-linting goroutines and >=1 other goroutine; distinct by operation lists. Cold start also covers reads: while eight goroutines lint through the untouched global registry three more make every read call (JSON listing, names, sources, per-kind lists, lookups by source and name, a filter, example configuration) for the first time, each shard starting at another call; answers must equal the same calls made alone. Further legs (fresh processes, race detector): ~500 calls of pure helper functions (reserved addresses and networks, TLD table, FQDN / IDNA / country / onion helpers, trial division) made first concurrently then alone, and hammered; JSON encoders (result sets, results, statuses, sources, listing) from eight goroutines against the bytes produced alone; key-quality verdicts on chosen RSA keys from eight goroutines. Fresh-registry reads (race-detector build): 250 / 3000 rounds, each on an untouched Filter result: six goroutines loop over its read calls while a seventh makes one call for the first time (names, listing, sources, a filter, a lint run, example configuration, per-kind names - another each round); answers equal those of an untouched twin asked alone; a round that does not end within 60 s is a deadlock.",
         "assumptions": ["SetConfiguration / Register* concurrent with linting are outside the stated guarantee and not generated",
                         "schedules are sampled; the race detector reports an unsynchronised shared access whenever both accesses execute in one run"],
     },
